@@ -236,6 +236,14 @@ def consensus(
         super_reads[1].append(
             Variant(pos, allele=id_to_allele[pos][1 - best_allele], quality=score)
         )
+    # Variants that are already phased in the input but received no votes keep their phase.
+    # (The writer removes existing phase information from all calls it processes.)
+    for pos, phase in phased.items():
+        if phase is None or pos in votes or phase.block_id is None or len(phase.phase) != 2:
+            continue
+        components[pos] = phase.block_id - 1
+        super_reads[0].append(Variant(pos, allele=phase.phase[0], quality=0))
+        super_reads[1].append(Variant(pos, allele=phase.phase[1], quality=0))
     for read in super_reads:
         read.sort(key=lambda x: x.position)
     return super_reads, components
